@@ -31,6 +31,21 @@ theorem hasDupIds_false {ls : List RList} {seen : List Int} (h : hasDupIds ls se
       simp only [List.mem_cons, not_or] at this
       exact fun e => this.1 e.symm
 
+theorem hasDupIds_true {ls : List RList} {seen : List Int} (h : hasDupIds ls seen = true) :
+    ¬ ls.Pairwise (fun a b => a.id ≠ b.id) ∨ ∃ l ∈ ls, l.id ∈ seen := by
+  induction ls generalizing seen with
+  | nil => simp [hasDupIds] at h
+  | cons l ls ih =>
+    simp only [hasDupIds, Bool.or_eq_true] at h
+    rcases h with h | h
+    · right; exact ⟨l, by simp, by simpa using h⟩
+    · rcases ih h with h' | ⟨x, hx, hs⟩
+      · left; intro hp; exact h' (List.pairwise_cons.mp hp).2
+      · simp only [List.mem_cons] at hs
+        rcases hs with hs | hs
+        · left; intro hp; exact (List.pairwise_cons.mp hp).1 x hx hs.symm
+        · right; exact ⟨x, by simp [hx], hs⟩
+
 theorem findList_of_mem {lists : List RList} (hd : lists.Pairwise (fun a b => a.id ≠ b.id)) {l : RList}
     (hl : l ∈ lists) : findList lists l.id = some l := by
   unfold findList
